@@ -19,6 +19,9 @@ type Board struct {
 	FiftyCnt       Depth
 }
 
+// MaxFiftyCnt is the value at which the fifty move counter saturates.
+const MaxFiftyCnt = Depth(127)
+
 func StartPos() *Board {
 	return Must(FromFEN(StartPosFEN))
 }
@@ -108,7 +111,8 @@ func (b *Board) MakeMove(m move.Move) Reverse {
 	r.setFiftyCnt(b.FiftyCnt)
 	if piece == Pawn || capture != NoPiece {
 		b.FiftyCnt = 0
-	} else {
+	} else if b.FiftyCnt < MaxFiftyCnt {
+		// saturate, the counter is 8 bits wide and would wrap to negative
 		b.FiftyCnt++
 	}
 
